@@ -270,7 +270,20 @@ impl Prop for C15 {
                     } else {
                         must_reject = true;
                     }
-                    format!("{}", n)
+                    // a bare number followed (or preceded) by any amount of white space is still a bare number
+                    if n <= 65529 {
+                        ctx.count("bare_number_spellings");
+                        match rng.usize(8) {
+                            0 => format!("{} ", n),
+                            1 => format!("{}  ", n),
+                            2 => format!("{} \t", n),
+                            3 => format!("{}\t  ", n),
+                            4 => format!("  {}   ", n),
+                            _ => format!("{}", n),
+                        }
+                    } else {
+                        format!("{}", n)
+                    }
                 }
                 5 | 6 | 7 => {
                     let (t, r) = range_operand(rng, small, false);
